@@ -200,6 +200,13 @@ func (l *irLoader) compileFilterFuncs(filename string, irfile *ir.File) error {
 		return fmt.Errorf("parse custom decls: %w", err)
 	}
 
+	// A call must never be bound to a same-named function of a file loaded earlier.
+	for _, decl := range f.Syntax.Decls {
+		if decl, ok := decl.(*ast.FuncDecl); ok {
+			l.state.env.ForgetFunc(f.Pkg.Path(), decl.Name.String())
+		}
+	}
+
 	for _, decl := range f.Syntax.Decls {
 		decl, ok := decl.(*ast.FuncDecl)
 		if !ok {
